@@ -38,6 +38,31 @@ def orientation(c, k, sign):
     return True, f'{k} = Dhuhr {"-" if sign < 0 else "+"} t, t in [{lo:.3f}, {hi:.3f}] h'
 
 
+def hour_per_degree(c, k):
+    """the constant that turns the hour angle (degrees) into hours in value(k) = Dhuhr -/+ const * to_degrees(acos(..))"""
+    g, pay, shape = c.guard_and_payload(k)
+    out = []
+    if pay is None:
+        return out
+    from ..terms import subterms
+    from .common import const_f64
+    for x in subterms(pay):
+        if x and x[0] == 'bin' and x[1] in ('Mul', 'Div'):
+            for a, b in ((x[2], x[3]), (x[3], x[2])):
+                if const_f64(a) is not None and b[0] == 'app' and b[1] == 'to_degrees' and b[2][0][0] == 'app' and b[2][0][1] == 'acos':
+                    out.append(const_f64(a) if (x[1] == 'Mul' or a is x[2]) else 1.0 / const_f64(a))
+    return out
+
+
+def check_hour_per_degree(c, rep, rule, k):
+    ks = hour_per_degree(c, k)
+    if not ks:
+        rep.ob(rule, f'{k}:hours-per-degree', None, 'conversion constant not isolated')
+        return
+    ok = all(abs(v - 1.0 / 15.0) < 1e-9 for v in ks)
+    rep.ob(rule, f'{k}:hours-per-degree', ok, f'hour angle is converted with {ks} h/deg (the Earth turns 15 deg per hour: 1/15)')
+
+
 def run(ctx, rep):
     rep.explanation = (
         'Decides: exactly seven entries (key sets of every map on the path, all outcomes), orientation of Fajr/Asr/Isha around '
@@ -68,6 +93,7 @@ def run(ctx, rep):
     for k, sgn in (('Fajr', -1), ('Isha', +1), ('Asr', +1)):
         ok, detail = orientation(c, k, sgn)
         rep.ob('R5.2', f'{k}:orientation', ok, detail)
+        check_hour_per_degree(c, rep, 'R5.2', k)
     # ---- R5.3 nothing flagged under None ----------------------------------------------
     nn = 0
     for w in pa.worlds:
